@@ -199,36 +199,35 @@ def run_task(task):
         except Exception as ex:  # noqa
             live_exc = type(ex).__name__
         boot.set_ranks(m.ranks)
-        fr2 = c01.fresh_snapshot(w2, perms)
-        boot.set_ranks(m.ranks)
         lc = engine.letter_class(g, w)
-        if live_exc is None and fr2[0] == "ok":
-            d = S.diff(S.value_snapshot(m.system), fr2[1], empty_entries_neutral=True)
+        # the same letter on a freshly built live system with the same inputs
+        m3 = W.build(w, perms=perms)
+        ref_exc = None
+        try:
+            W.apply_live(m3, g)
+        except Exception as ex:  # noqa
+            ref_exc = type(ex).__name__
+        if live_exc is None and ref_exc is None:
+            boot.set_ranks(m.ranks)
+            d = S.diff(S.value_snapshot(m.system), S.value_snapshot(m3.system), empty_entries_neutral=True)
             if d:
                 objs = S.system_objects(m.system)
                 rank = S.canonical_rank(objs)
                 first = min(d, key=lambda t: (rank.get(t[0], (99, 99)), t[0]))
                 o = m.objs.get(first[0][0])
                 res["violations"].append({
-                    "sig": {"clause": "followup-differs-from-fresh-build", "failure": fam_names, "letter": lc,
+                    "sig": {"clause": "followup-differs-from-freshly-built-system", "failure": fam_names, "letter": lc,
                             "first_divergent": S.class_attr(S.unwrap(o), first[0][1]) if o is not None else "?"},
                     "detail": {"first": [str(x)[:300] for x in first], "n": len(d)}})
             link_check(m, res, fam_names, "after-followup:" + lc)
             res["followup"] = "accepted"
-        elif live_exc is not None and fr2[0] == "ok":
-            # tolerated when the same letter is also refused on a fresh live model (spares etc.): compare
-            m3 = W.build(w, perms=perms)
-            try:
-                W.apply_live(m3, g)
-                same = False
-            except Exception:  # noqa
-                same = True
-            if not same:
-                res["violations"].append({"sig": {"clause": "followup-raises-only-after-recovery", "failure": fam_names,
-                                                  "letter": lc, "exc": live_exc}, "detail": {"letter": g}})
-            res["followup"] = "raised"
+        elif (live_exc is None) != (ref_exc is None):
+            res["violations"].append({"sig": {"clause": "followup-accepted-on-one-side-only", "failure": fam_names,
+                                              "letter": lc, "recovered": str(live_exc), "fresh": str(ref_exc)},
+                                      "detail": {"letter": g}})
+            res["followup"] = "one-sided"
         else:
-            res["followup"] = "other"
+            res["followup"] = "both-raise"
     res["vdigest"] = S.digest(post["value"], 8)
     return res
 
